@@ -502,7 +502,9 @@ static void cmd_adump(int nt, char **t)
 	struct json_object *a = H[hidx(t[1])]; size_t n = json_object_array_length(a), i; struct array_list *al = json_object_get_array(a); (void)nt;
 	ob_printf(&out, "= len=%zu cap=%zu e=", n, al->size);
 	for (i = 0; i < n + 3; i++) { struct json_object *v = json_object_array_get_idx(a, i); if (i) ob_putc(&out, ','); if (v) ob_printf(&out, "%ld", uid_of(v)); else ob_putc(&out, 'n'); }
-	ob_printf(&out, " far=%d", json_object_array_get_idx(a, (size_t)-1) == NULL && json_object_array_get_idx(a, n + 1000000) == NULL);
+	ob_printf(&out, " far=%d", json_object_array_get_idx(a, (size_t)-1) == NULL && json_object_array_get_idx(a, n + 1000000) == NULL &&
+	          json_object_array_get_idx(a, ((size_t)1 << 32)) == NULL && json_object_array_get_idx(a, ((size_t)1 << 32) + (n ? n - 1 : 0)) == NULL &&
+	          json_object_array_get_idx(a, ((size_t)1 << 63) + (n ? n - 1 : 0)) == NULL);
 }
 /* sort by uid, nulls first (comparator is NULL-safe) */
 static int cmp_uid(const void *a, const void *b)
